@@ -441,6 +441,13 @@ class NetworkService(ModelElement):
         :param kwargs: typically labels and capacities to put on the interface facing the other service
         """
         assert(isinstance(ns, NetworkService))
+        if ns.node_id == self.node_id:
+            raise TopologyException(f'Service {self.name} cannot be peered with itself.')
+        # the two ports and the link are named after the two services: the link name must be free
+        # (the port names are checked by add_interface)
+        if not self.topo.graph_model.check_node_unique(label=ABCPropertyGraph.CLASS_Link,
+                                                       name=self.name + '-' + ns.name + '-link'):
+            raise TopologyException(f'A link named {self.name}-{ns.name}-link already exists.')
         self_iface = self.add_interface(name=self.name + '-' + ns.name, itype=InterfaceType.ServicePort, **kwargs)
         try:
             other_iface = ns.add_interface(name=ns.name + '-' + self.name, itype=InterfaceType.ServicePort)
